@@ -226,6 +226,10 @@ pub fn cmd_emit_crates(args: &[String]) {
     let mut ctx = Ctx::new(&format!("crates{}", shard));
     let mut index = std::io::BufWriter::new(std::fs::File::create(format!("{}/index_{}.txt", out, shard)).unwrap());
     let mut known = std::io::BufWriter::new(std::fs::File::create(format!("{}/known_{}.txt", out, shard)).unwrap());
+    // --drivers: also write programs that call every eligible client method with sentinel arguments (execution layer)
+    let with_drivers = args.iter().any(|a| a == "--drivers");
+    let mut drivers = std::io::BufWriter::new(std::fs::File::create(format!("{}/drivers_{}.txt", out, shard)).unwrap());
+    let mut expect = std::io::BufWriter::new(std::fs::File::create(format!("{}/expect_{}.txt", out, shard)).unwrap());
     let mut specs: Vec<(usize, Spec, Cfg)> = vec![];
     if shard == 0 {
         for (i, s) in crate::corpus::compile_corpus().into_iter().enumerate() {
@@ -261,6 +265,28 @@ pub fn cmd_emit_crates(args: &[String]) {
                 if let Ok(Ok(h)) = catch(|| libninja::extractor::extract_spec(&oa)) {
                     for (file, class, msg) in crate::coracle::expected_rejections(&h) {
                         writeln!(known, "{}\t{}\t{}\t{}", id, file, class, msg).unwrap();
+                    }
+                    if with_drivers {
+                        let hx = |s: &str| format!("#{}", hex(s.as_bytes()));
+                        for dr in crate::execgen::drivers_for(&h, cfg, &pkg) {
+                            let name = format!("lnv_{}_{}", id, &dr.name[4..]);
+                            std::fs::write(d.join("examples").join(format!("{}.rs", name)), &dr.source).unwrap();
+                            writeln!(drivers, "{}\t{}\tcall\t{}\t{}", id, name, hx(&dr.op), crate::execgen::args_sexp(&dr.args)).unwrap();
+                        }
+                        // libninja's own examples under crate-unique names, so that they can be run as well
+                        let mut ops = serde_json::Map::new();
+                        for o in &h.operations {
+                            ops.insert(hx(&o.name), serde_json::json!([o.method, o.path]));
+                            let src = d.join("examples").join(format!("{}.rs", o.file_name()));
+                            if let Ok(text) = std::fs::read_to_string(&src) {
+                                let name = format!("lnvx_{}_{}", id, o.file_name());
+                                std::fs::write(d.join("examples").join(format!("{}.rs", name)), text).unwrap();
+                                writeln!(drivers, "{}\t{}\texample\t{}\t()", id, name, hx(&o.name)).unwrap();
+                            }
+                        }
+                        let mut ex = crate::execgen::crate_expectations(spec, cfg);
+                        ex["ops"] = serde_json::Value::Object(ops);
+                        writeln!(expect, "{}\t{}", id, ex).unwrap();
                     }
                 }
             }
